@@ -27,6 +27,8 @@ type Result struct {
 	ContHdrs int    // OnContinuation invocations
 	Calls    int    // successful API-level deliveries
 	Retries  int    // calls repeated after a transient transport error
+	// ContractBroken: a Read returned a count outside 0..len(p)
+	ContractBroken bool
 	Reader   *wsutil.Reader
 	// HandlerShort: a control handler callback got fewer bytes than announced and saw a
 	// clean EOF (C16).
@@ -67,6 +69,15 @@ const maxIter = 10000
 // ReaderLoop: one Reader for the whole stream; NextFrame + Read with a caller buffer of
 // size buf until EOF. OnIntermediate / OnContinuation record what they are handed.
 func ReaderLoop(buf int) Driver { return readerLoop(buf, -1, -1) }
+
+// ReaderAlternatingBuffers: like ReaderLoop, but the caller's buffer is 64 bytes for the
+// first Read of a message and 1 byte for all later ones (a count carried over from one Read
+// to a later one would not fit that buffer).
+func ReaderAlternatingBuffers() Driver {
+	d := readerLoop(-64, -1, -1)
+	d.Name = "Reader/buffers-64-then-1"
+	return d
+}
 
 // ReaderContinuationHandler: like ReaderLoop(7), with an OnContinuation handler that reads up
 // to k bytes of each continuation fragment itself (they belong to the message like the bytes
@@ -137,7 +148,11 @@ func readerLoop(buf, lazy, contReads int) Driver {
 				}
 				return nil
 			}
-			b := make([]byte, buf)
+			alternating, size := buf < 0, buf
+			if alternating {
+				size = -buf
+			}
+			full := make([]byte, size)
 			for it := 0; it < maxIter; it++ {
 				h, err := rd.NextFrame()
 				if _, transient := err.(env.TempErr); transient {
@@ -155,7 +170,17 @@ func readerLoop(buf, lazy, contReads int) Driver {
 						res.Err = errors.New("driver: Read does not terminate")
 						return
 					}
+					b := full
+					if alternating && jt >= 1 {
+						b = full[:1]
+					}
 					n, err := rd.Read(b)
+					if n < 0 || n > len(b) {
+						// the io.Reader contract; callers such as io.ReadAll panic on it
+						res.Err = fmt.Errorf("driver: Read returned n=%d for a buffer of %d bytes (err=%v)", n, len(b), err)
+						res.ContractBroken = true
+						return
+					}
 					p = append(p, b[:n]...)
 					res.Partial = p
 					if _, transient := err.(env.TempErr); transient {
@@ -504,7 +529,7 @@ func ParseFrames(b []byte) (out []refmodel.Frame, rest []byte) {
 func All() []Driver {
 	return []Driver{
 		ReaderLoop(1), ReaderLoop(2), ReaderLoop(7), ReaderLoop(512),
-		ReaderLazyHandler(0), ReaderLazyHandler(1), ReaderContinuationHandler(1), ReaderContinuationHandler(64),
+		ReaderAlternatingBuffers(), ReaderLazyHandler(0), ReaderLazyHandler(1), ReaderContinuationHandler(1), ReaderContinuationHandler(64),
 		ReaderDiscard(0), ReaderDiscard(1), ReaderDiscardUTF8(1), ReaderDiscardUTF8(2),
 		NextReaderLoop(), ReadMessageLoop(),
 		ReadDataLoop("Generic"), ReadDataLoop("Data"), ReadDataLoop("Text"), ReadDataLoop("Binary"),
